@@ -75,7 +75,7 @@ theorem valuesOf_append_left (e0 : EnvVal) (a b : List Step) (v : Bytes) (hv : v
 
 /-- one cache lookup at the end of the history `h` -/
 theorem offset_at (W : World) (e0 : EnvVal) (k0 : Nat) (h : List Step)
-    (hinj : InjOn W (valuesOf e0 h)) (c : Cache) (hc : CacheAt W e0 k0 h c) :
+    (c : Cache) (hc : CacheAt W e0 k0 h c) :
     CacheAt W e0 k0 h (Cache.offset W c (k0 + elapsed h) (envAfter e0 h)).1 ∧
     ∃ q r, h = q ++ r ∧ elapsed r < ONE_SECOND ∧
       (Cache.offset W c (k0 + elapsed h) (envAfter e0 h)).1.zone =
@@ -99,10 +99,7 @@ theorem offset_at (W : World) (e0 : EnvVal) (k0 : Nat) (h : List Step)
         cases hh : out_of_date c.source (Source.new W (k0 + elapsed h) (env_var (envAfter e0 h))) <;> simp_all
       have hee : env_var (envAfter e0 q) = env_var (envAfter e0 h) := by
         rw [b] at ho'
-        refine not_out_of_date W _ hinj _ _ _ _ ?_ (envAfter_mem e0 h) ho'
-        intro v hv
-        rw [e]
-        exact valuesOf_append_left e0 q r v (envAfter_mem e0 q v hv)
+        exact not_out_of_date W _ _ _ _ ho'
       dsimp only
       rw [if_neg ho]
       have hz : c.zone = current_zone W (env_var (envAfter e0 h)) := by rw [d, hee]
@@ -116,7 +113,7 @@ theorem default_at (W : World) (e0 : EnvVal) (k0 : Nat) (h : List Step) :
 extended by the conversion), and the zone used is the one of TZ's value at a point less than one
 second back -/
 theorem inner_offset_at (W : World) (e0 : EnvVal) (k0 : Nat) (h : List Step)
-    (hinj : InjOn W (valuesOf e0 h)) (s : State) (t : Nat) (l : Bool) (hI : HistInv W e0 k0 h s) :
+    (s : State) (t : Nat) (l : Bool) (hI : HistInv W e0 k0 h s) :
     HistInv W e0 k0 (h ++ [.convert t l]) (inner_offset W s t).1 ∧
     ∃ q r, h = q ++ r ∧ elapsed r < ONE_SECOND ∧
       (inner_offset W s t).2.1 = current_zone W (env_var (envAfter e0 q)) := by
@@ -131,7 +128,7 @@ theorem inner_offset_at (W : World) (e0 : EnvVal) (k0 : Nat) (h : List Step)
         (Cache.offset W c0 s.clock s.env).1.zone = current_zone W (env_var (envAfter e0 q)) := by
     intro c0 hc0
     rw [henv, hclock]
-    obtain ⟨h1, h2⟩ := offset_at W e0 k0 h hinj c0 hc0
+    obtain ⟨h1, h2⟩ := offset_at W e0 k0 h c0 hc0
     refine ⟨⟨by rw [hE], by rw [hT], ?_⟩, h2⟩
     intro t' c' hc'
     dsimp only at hc'
@@ -151,10 +148,10 @@ theorem inner_offset_at (W : World) (e0 : EnvVal) (k0 : Nat) (h : List Step)
     exact this
 
 theorem step_at (W : World) (e0 : EnvVal) (k0 : Nat) (h : List Step) (x : Step)
-    (hinj : InjOn W (valuesOf e0 h)) (s : State) (hI : HistInv W e0 k0 h s) :
+    (s : State) (hI : HistInv W e0 k0 h s) :
     HistInv W e0 k0 (h ++ [x]) (step W s x).1 := by
   cases x with
-  | convert t l => exact (inner_offset_at W e0 k0 h hinj s t l hI).1
+  | convert t l => exact (inner_offset_at W e0 k0 h s t l hI).1
   | spawn t =>
     obtain ⟨henv, hclock, hcs⟩ := hI
     refine ⟨by rw [envAfter_append]; exact henv, by rw [elapsed_append]; show s.clock = _; simp [elapsed, hclock], ?_⟩
@@ -184,34 +181,29 @@ theorem step_at (W : World) (e0 : EnvVal) (k0 : Nat) (h : List Step) (x : Step)
     show s.clock + n = _
     simp [elapsed]; omega
 
-theorem injOn_prefix (W : World) (e0 : EnvVal) (a b : List Step) (h : InjOn W (valuesOf e0 (a ++ b))) :
-    InjOn W (valuesOf e0 a) :=
-  fun x hx y hy => h x (valuesOf_append_left e0 a b x hx) y (valuesOf_append_left e0 a b y hy)
-
 /-- the invariant holds along every history -/
 theorem exec_at (W : World) (e0 : EnvVal) (k0 : Nat) (h : List Step) :
-    ∀ (pre : List Step) (s : State), InjOn W (valuesOf e0 (pre ++ h)) → HistInv W e0 k0 pre s →
+    ∀ (pre : List Step) (s : State), HistInv W e0 k0 pre s →
       HistInv W e0 k0 (pre ++ h) (exec W s h) := by
   induction h with
-  | nil => intro pre s _ hI; rw [List.append_nil]; exact hI
+  | nil => intro pre s hI; rw [List.append_nil]; exact hI
   | cons x xs ih =>
-    intro pre s hinj hI
+    intro pre s hI
     have e : pre ++ x :: xs = (pre ++ [x]) ++ xs := by simp
-    rw [e] at hinj ⊢
-    exact ih (pre ++ [x]) _ hinj
-      (step_at W e0 k0 pre x (injOn_prefix W e0 pre [x] (injOn_prefix W e0 _ xs hinj)) s hI)
+    rw [e]
+    exact ih (pre ++ [x]) _ (step_at W e0 k0 pre x s hI)
 
 theorem init_at (W : World) (e0 : EnvVal) (k0 : Nat) : HistInv W e0 k0 [] (init e0 k0) :=
   ⟨rfl, rfl, fun t c hc => by simp [init] at hc⟩
 
 theorem honoured_within_last_second' (W : World) (e0 : EnvVal) (k0 : Nat) (h : List Step)
-    (hinj : InjOn W (valuesOf e0 h)) (t : Nat) (l : Bool) :
+    (t : Nat) (l : Bool) :
     ∃ q r, h = q ++ r ∧ elapsed r < ONE_SECOND ∧
       zoneOfStep (step W (exec W (init e0 k0) h) (.convert t l)) =
         some (zoneFor W (env_var (envAfter e0 q))) := by
-  have hI := exec_at W e0 k0 h [] (init e0 k0) (by simpa using hinj) (init_at W e0 k0)
+  have hI := exec_at W e0 k0 h [] (init e0 k0) (init_at W e0 k0)
   rw [List.nil_append] at hI
-  obtain ⟨_, q, r, e, hr, hz⟩ := inner_offset_at W e0 k0 h hinj _ t l hI
+  obtain ⟨_, q, r, e, hr, hz⟩ := inner_offset_at W e0 k0 h _ t l hI
   refine ⟨q, r, e, hr, ?_⟩
   unfold zoneOfStep step
   simp only [Option.map_some]
